@@ -303,7 +303,8 @@ class TimeSeriesCausalGraph(CausalGraph):
                 for i in range(len(ordered_nodes_list)):
                     assert isinstance(ordered_nodes_list[i], list)
                     tmp = self._get_time_topological_order(ordered_nodes_list[i])  # type: ignore
-                    if len(tmp) > 0:
+                    # an empty list signals that the order does not respect time, unless the order itself is empty
+                    if len(tmp) > 0 or len(ordered_nodes_list[i]) == 0:
                         ordered_nodes.append(tmp)
 
                 return ordered_nodes
